@@ -36,7 +36,7 @@ pub fn run_c04(cx: &Ctx) -> i32 {
     }
     g.atoms.push(ast::lit("A"));
     // character classes in their various spellings (copied verbatim into delegated regexes)
-    let class_atoms: &[&str] = if cx.quick() { &["[a-b]", "\\s", "[^\\n]", "[A\\-b]"] } else { &["[a-b]", "\\s", "[^\\n]", "\\d", "[\\w&&[^a]]", "[[:alpha:]]", "[a[^b]]", "\\pL", "\\p{Lu}", "[\\]a]", "[]a]", "\\S", "\\W", "[\\x61-\\x62]", "[A\\-b]", "[+\\-*/a]", "[\\w\\-.]", "[a\\&b]", "[a\\~b]", "[A\\x2db]"] };
+    let class_atoms: &[&str] = if cx.quick() { &["[a-b]", "\\s", "[^\\n]", "[A\\-b]", "[a\\&&b]"] } else { &["[a\\&&b]", "[a\\~\\~b]", "[\\x26\\x26a]", "[a-b]", "\\s", "[^\\n]", "\\d", "[\\w&&[^a]]", "[[:alpha:]]", "[a[^b]]", "\\pL", "\\p{Lu}", "[\\]a]", "[]a]", "\\S", "\\W", "[\\x61-\\x62]", "[A\\-b]", "[+\\-*/a]", "[\\w\\-.]", "[a\\&b]", "[a\\~b]", "[A\\x2db]"] };
     for c in class_atoms {
         g.atoms.push(Node::Raw(c.to_string(), 1));
     }
